@@ -11,8 +11,8 @@
 (* and which are length-independent (size lemmas of Deb822Value).          *)
 (* A trace is [objs, deep, events]: objs = the LIVE objects, each          *)
 (* [cls |-> "Deb822" | "Dsc" | "Changes" | "BuildInfo" | "Release" |       *)
-(* "PdiffIndex", para |-> paragraph]; a paragraph is a sequence of [k, v]  *)
-(* (code point sequences).  An event is                                    *)
+(* "PdiffIndex" | "Sources" | "Packages" | "Removals", para |-> paragraph];*)
+(* a paragraph is a sequence of [k, v] (code point sequences); an event is *)
 (*   [obj, cls, key, v, acc, res, items, rb]:                              *)
 (*   obj    index of the live object assigned to; 0 = a throw-away object  *)
 (*          of class cls receiving v under a MULTIVALUED key (Files ...),  *)
@@ -93,7 +93,8 @@ N_x_unmerged_sha256_download == <<120, 45, 117, 110, 109, 101, 114, 103, 101, 10
 N_x_unmerged_sha256_history == <<120, 45, 117, 110, 109, 101, 114, 103, 101, 100, 45, 115, 104, 97, 50, 53, 54, 45, 104, 105, 115, 116, 111, 114, 121>>
 N_x_unmerged_sha256_patches == <<120, 45, 117, 110, 109, 101, 114, 103, 101, 100, 45, 115, 104, 97, 50, 53, 54, 45, 112, 97, 116, 99, 104, 101, 115>>
 MultiNames(cls) == CASE cls = "Deb822" -> {}
-  [] cls = "Dsc" -> {N_checksums_sha1,
+  [] cls \in {"Packages", "Removals"} -> {}
+  [] cls \in {"Dsc", "Sources"} -> {N_checksums_sha1,
         N_checksums_sha256,
         N_checksums_sha512,
         N_files}
